@@ -794,13 +794,16 @@ def _oracle_fde(case, R, mode):
                     f"{float(binamps[j, kk[keep][np.argmax(over[keep])]] / Amax[j])!r}); {info}")
         c = case["scale"]
         O2 = fdepsd.fdepsd(sig * c, sr, fr_arg, Q, **kw)
-        ratio = O2.psd.values[:, 1] / (psd[:, 1] * c * c)
-        R.metric("G2_scaling_relerr", float(np.abs(ratio - 1).max()))
+        with np.errstate(all="ignore"):
+            ratio = O2.psd.values[:, 1] / (psd[:, 1] * c * c)
+        e = _rel(O2.psd.values[:, 1], psd[:, 1] * c * c)        # inf == inf is agreement
+        R.metric("G2_scaling_relerr", min(e, 1e300))
         same_counts = bool(np.array_equal(O2.count.values, count))
         R.label("counts_equal_after_scaling" if same_counts else "skip:counts_differ_after_scaling")
         if same_counts:
-            R.check(bool(np.all(np.abs(ratio - 1) <= 1e-6)), "G2_does_not_scale_with_square",
-                    f"c={c}: G2(c sig)/(c^2 G2(sig)) = {ratio.tolist()} with identical cycle counts; "
+            R.check(e <= 1e-6, "G2_does_not_scale_with_square",
+                    f"c={c}: G2(c sig)/(c^2 G2(sig)) = {ratio.tolist()} (G2(sig)={psd[:, 1].tolist()}) "
+                    f"with identical cycle counts; "
                     f"peakamp G1={peak[:, 0].tolist()}; {info}")
         R.nontrivial(True)
         return
